@@ -194,6 +194,10 @@ def worker_main(pid, tier, seed, shard, nshards, out):
     import faulthandler
 
     faulthandler.enable()
+    wd = float(os.environ.get('HPLMON_WATCHDOG') or 0)
+    if wd > 0:
+        # shortly before the parent's wall-clock watchdog fires, leave the stack in the shard log
+        faulthandler.dump_traceback_later(wd, exit=False)
     origin = env.setup_import()
     mod = load_prop(pid)
     kn, _ = knownmod.load()
@@ -238,6 +242,7 @@ def check_main(pid, tier, seed, check_path):
             e['PYTHONHASHSEED'] = str((i + seed) % 4)
             e['PYTHONDONTWRITEBYTECODE'] = '1'
             e['HPLMON_SCRATCH'] = scratch
+            e['HPLMON_WATCHDOG'] = str(max(5, timeout * 0.9))
             cmd = [
                 sys.executable, '-X', f'pycache_prefix={scratch}/pyc', check_path, pid,
                 '--worker', '--tier', tier, '--seed', str(seed),
@@ -253,7 +258,11 @@ def check_main(pid, tier, seed, check_path):
             except subprocess.TimeoutExpired:
                 p.kill()
                 p.wait()
-                problems.append(f'shard {i}: wall-clock watchdog fired after {timeout}s')
+                try:
+                    tail = open(os.path.join(scratch, f'w{i}.log')).read()[-1500:]
+                except OSError:
+                    tail = ''
+                problems.append(f'shard {i}: wall-clock watchdog fired after {timeout}s; stack:\n{tail}')
             log.close()
             if os.path.exists(out):
                 try:
